@@ -26,14 +26,20 @@ import (
 //   mode current|fixed            model-side switch only (ok)
 //   node N | edge ID S E          AddNode / AddEdge+AddTriple on every container (ok)
 //   tsdel ID                      triplestore.DeleteEdge (ok)
-//   proj DN DE | proj2 DN DE      current projection := ts.Projection / cur.Projection (ok); sets are `a,b,c` or `-`
+//   proj DN DE | proj2 DN DE      handle `proj` := ts.Projection / proj.Projection (ok); sets are `a,b,c` or `-`
+//   proj H PARENT DN DE           handle H := PARENT.Projection(DN, DE), PARENT = store or an existing handle (ok);
+//                                 every handle is a first-class container name C below (nested projections)
+//   snap H                        full canonical view of handle H (NumNodes, EachNode, NumEdges, EachEdge, per node and
+//                                 direction EachAdjacentNode as a set / EachAdjacentEdge ids) and of the caller-owned bitmaps
+//   From the first `proj` of a case on, EVERY answer carries ` ## H=<view hash>:<argument hash> …` for all live handles
+//   (FNV-1a of the canonical view / of the bitmaps that were passed to Projection): a projection is an immutable value.
 //   nodes C                       n=<NumNodes> [EachNode order]              C in am csr ts proj
 //   adj C D | adj1 C D N          EachAdjacentNode callback sequences, per node `v:[..]`   D in out in both
 //   reach C D | reach1 C D N      container.Reach(...).Slice()
 //   bfs C D | bfs1 C D N          container.BFSTree in discovery order `n@dist`
 //   norm am|csr D                 Normalize(): rev=[..] then adjacency of the renumbered graph
 //   seg n1 e1 n2 e2 ... nk        MarshalSegment bytes (hex) and UnmarshalSegment of them
-//   toseg nodes edges             SerializedSegment{Nodes, Edges}.ToSegment() -> Nodes()/Edges() of the result, or `panic`
+//   toseg nodes edges             SerializedSegment{Nodes, Edges}.ToSegment() -> Nodes()/Edges() of the result, or `index-panic`
 //   tsbfs|tsdfs ts|proj D MAXDEPTH ROOT FILTER     handler calls in order, FILTER = all | nostart:ids | noedge:ids
 //   tssl ts|proj D MAXDEPTH ROOT FILTER            TSStatelessBFS terminals `node@distance*weight` in order, weight(e) = 1 + id%3
 //   numedges C | dims C D         NumEdges() / container.Dimensions(g, D) as `n largestRow`
@@ -252,6 +258,64 @@ func (c14Suite) Gen(rng *Rng, tier string, w *bufio.Writer, stats *Stats) {
 	stats.Add("exhaustive.projection.graphs_closed_form", closed)
 	stats.Add("exhaustive.projection.deletion_sets", projSets)
 
+	// (2b) nested projections: every (N1,E1) parent of every small digraph, every (N2,E2) child derived from it, a sibling
+	// derived afterwards; every answer re-observes all live handles and the caller-owned bitmaps (see Step)
+	nk, nm := 2, 2
+	if thorough {
+		nk, nm = 3, 2
+	}
+	var nestedGraphs, nestedDerivations int64
+	for k := 1; k <= nk; k++ {
+		for m := 0; m <= nm && m <= k*k; m++ {
+			combos(k*k, m, false, func(sel []int) {
+				c := &c14Case{title: fmt.Sprintf("exhaustive-nested-projection k=%d m=%d", k, m)}
+				for i := 0; i < k; i++ {
+					c.add("node %d", c14SmallIDs[i])
+				}
+				for i, p := range sel {
+					c.add("edge %d %d %d", 100+i, c14SmallIDs[p/k], c14SmallIDs[p%k])
+				}
+				subset := func(nm, em int) (dn, de []uint64) {
+					for i := 0; i < k; i++ {
+						if nm>>i&1 == 1 {
+							dn = append(dn, c14SmallIDs[i])
+						}
+					}
+					for i := 0; i < m; i++ {
+						if em>>i&1 == 1 {
+							de = append(de, uint64(100+i))
+						}
+					}
+					return
+				}
+				for n1 := 0; n1 < 1<<k; n1++ {
+					for e1 := 0; e1 < 1<<m; e1++ {
+						dn1, de1 := subset(n1, e1)
+						c.add("proj p store %s %s", idsTok(dn1), idsTok(de1))
+						for n2 := 0; n2 < 1<<k; n2++ {
+							for e2 := 0; e2 < 1<<m; e2++ {
+								dn2, de2 := subset(n2, e2)
+								c.add("proj c p %s %s", idsTok(dn2), idsTok(de2))
+								nestedDerivations++
+							}
+						}
+						c.add("proj c p 77 999") // ids that are neither nodes nor edges of the store
+						c.add("proj s p - -")    // a sibling derived after the children
+						c.add("nodes p")
+						c.add("numedges s")
+						c.add("adj c both")
+						c.add("proj g c %s -", idsTok([]uint64{c14SmallIDs[0]})) // third level
+						c.add("snap p")
+					}
+				}
+				emit(c)
+				nestedGraphs++
+			})
+		}
+	}
+	stats.Add("exhaustive.nested_projection.graphs", nestedGraphs)
+	stats.Add("exhaustive.nested_projection.derivations", nestedDerivations)
+
 	// (3) random structured multigraphs
 	n := 300
 	if thorough {
@@ -372,15 +436,54 @@ func c14Random(rng *Rng, stats *Stats, idx int) *c14Case {
 			dn = append(dn, absent, absent+1) // ids that are not nodes of the store
 			stats.Inc("shape.proj_deletes_non_node")
 		}
-		verb := "proj"
 		if p > 0 && rng.Chance(1, 2) {
-			verb = "proj2"
+			c.add("proj2 %s %s", idsTok(dn), idsTok(de))
+		} else {
+			c.add("proj %s %s", idsTok(dn), idsTok(de))
 		}
-		c.add("%s %s %s", verb, idsTok(dn), idsTok(de))
 		c.queryProj()
+		// first-class handles: derived from the store or from any earlier handle; earlier handles are observed again
+		h := fmt.Sprintf("h%d", p)
+		parent := "store"
+		if p > 0 && rng.Chance(2, 3) {
+			parent = fmt.Sprintf("h%d", rng.Intn(p))
+		}
+		var hn, he []uint64
+		for _, id := range pool {
+			if rng.Chance(1, 4) {
+				hn = append(hn, id)
+			}
+		}
+		for _, e := range edges {
+			if rng.Chance(1, 5) {
+				he = append(he, e.id)
+			}
+		}
+		c.add("proj %s %s %s %s", h, parent, idsTok(hn), idsTok(he))
+		c.add("nodes %s", h)
+		c.add("adj %s %s", h, c14Dirs[rng.Intn(3)])
+		if p > 0 {
+			o := fmt.Sprintf("h%d", rng.Intn(p))
+			c.add("nodes %s", o)
+			c.add("numedges %s", o)
+			c.add("adj %s %s", o, c14Dirs[rng.Intn(3)])
+			c.add("reach %s %s", o, c14Dirs[rng.Intn(3)])
+			if rng.Chance(1, 3) {
+				c.add("snap %s", o)
+			}
+		}
 		for _, v := range dn {
 			c.add("adj1 proj %s %d", c14Dirs[rng.Intn(3)], v) // a deleted node has no neighbours
 		}
+	}
+	// the store grows after the handles were taken: every view follows its origin
+	if rng.Chance(1, 3) {
+		a, b := c14PickID(rng, pool), c14PickID(rng, pool)
+		c.add("edge %d %d %d", nextEdgeID+7, a, b)
+		edges = append(edges, c14Edge{id: nextEdgeID + 7, s: a, e: b})
+		c.add("nodes h0")
+		c.add("adj h0 both")
+		c.add("numedges proj")
 	}
 	// segments
 	for s := 0; s < 2; s++ {
@@ -518,7 +621,14 @@ type c14Runner struct {
 	csr   container.DirectedGraph
 	dirty bool
 	ts    container.MutableTriplestore
-	proj  container.Triplestore
+	handles map[string]*c14Handle
+	snapOn  bool
+}
+
+// c14Handle is one projection handle together with the caller-owned bitmaps that were passed to Projection.
+type c14Handle struct {
+	ts         container.Triplestore
+	argN, argE cardinality.Duplex[uint64]
 }
 
 func (c14Suite) NewRunner(stats *Stats) Runner {
@@ -533,7 +643,95 @@ func (r *c14Runner) reset() {
 	r.csr = nil
 	r.dirty = true
 	r.ts = container.NewTriplestore()
-	r.proj = r.ts.Projection(cardinality.NewBitmap64(), cardinality.NewBitmap64())
+	n, e := cardinality.NewBitmap64(), cardinality.NewBitmap64()
+	r.handles = map[string]*c14Handle{"proj": {ts: r.ts.Projection(n, e), argN: n, argE: e}}
+	r.snapOn = false
+}
+
+// tsOf resolves `ts` or a projection handle.
+func (r *c14Runner) tsOf(name string) container.Triplestore {
+	if name == "ts" {
+		return r.ts
+	}
+	if h, ok := r.handles[name]; ok {
+		return h.ts
+	}
+	return nil
+}
+
+func fnv64(s string) uint64 {
+	h := uint64(14695981039346656037)
+	for i := 0; i < len(s); i++ {
+		h ^= uint64(s[i])
+		h *= 1099511628211
+	}
+	return h
+}
+
+func sortedSet(xs []uint64) []uint64 {
+	out := append([]uint64{}, xs...)
+	sort.Slice(out, func(i, j int) bool { return out[i] < out[j] })
+	w := 0
+	for i, x := range out {
+		if i == 0 || x != out[w-1] {
+			out[w] = x
+			w++
+		}
+	}
+	return out[:w]
+}
+
+// viewString is the canonical observation of a Triplestore through every read method of the interface.
+func viewString(ts container.Triplestore) string {
+	var b strings.Builder
+	nodes := eachNode(ts)
+	fmt.Fprintf(&b, "n=%d;N=%s;m=%d;E=[", ts.NumNodes(), fmtU64s(nodes), ts.NumEdges())
+	first := true
+	ts.EachEdge(func(e container.Edge) bool {
+		if !first {
+			b.WriteByte(',')
+		}
+		first = false
+		fmt.Fprintf(&b, "%d:%d:%d", e.ID, e.Start, e.End)
+		return true
+	})
+	b.WriteByte(']')
+	for _, v := range nodes {
+		for i, d := range []graph.Direction{graph.DirectionOutbound, graph.DirectionInbound, graph.DirectionBoth} {
+			var ids []uint64
+			ts.EachAdjacentEdge(v, d, func(e container.Edge) bool { ids = append(ids, e.ID); return true })
+			fmt.Fprintf(&b, ";%s(%d)=%s/%s", c14Dirs[i], v, fmtU64s(sortedSet(adjSeq(ts, v, d))), fmtU64s(ids))
+		}
+	}
+	return b.String()
+}
+
+func argString(h *c14Handle) string {
+	return "aN=" + fmtU64s(h.argN.Slice()) + ";aE=" + fmtU64s(h.argE.Slice())
+}
+
+func (r *c14Runner) digests() string {
+	names := make([]string, 0, len(r.handles))
+	for n := range r.handles {
+		names = append(names, n)
+	}
+	sort.Strings(names)
+	parts := make([]string, len(names))
+	for i, n := range names {
+		h := r.handles[n]
+		parts[i] = fmt.Sprintf("%s=%016x:%016x", n, fnv64(viewString(h.ts)), fnv64(argString(h)))
+	}
+	return strings.Join(parts, " ")
+}
+
+// Step answers one op and, once a projection was requested in this case, re-observes EVERY live handle.
+func (r *c14Runner) Step(t []string, raw string) string {
+	ans := r.step0(t, raw)
+	if r.snapOn && ans != "bad-op" {
+		r.stats.Inc("branch.handles.reobserved")
+		ans += " ## " + r.digests()
+	}
+	return ans
 }
 
 func (r *c14Runner) csrGraph() container.DirectedGraph {
@@ -560,8 +758,9 @@ func (r *c14Runner) view(c string) container.DirectedGraph {
 		return r.csrGraph()
 	case "ts":
 		return r.ts
-	case "proj":
-		return r.proj
+	}
+	if h, ok := r.handles[c]; ok {
+		return h.ts
 	}
 	return nil
 }
@@ -700,7 +899,7 @@ func c14Filter(s string) (func(e container.Edge) bool, bool) {
 	return nil, false
 }
 
-func (r *c14Runner) Step(t []string, raw string) string {
+func (r *c14Runner) step0(t []string, raw string) string {
 	switch {
 	case len(t) == 1 && t[0] == "graph":
 		r.reset()
@@ -748,18 +947,35 @@ func (r *c14Runner) Step(t []string, raw string) string {
 		r.ts.(interface{ DeleteEdge(uint64) }).DeleteEdge(id)
 		r.stats.Inc("branch.ts.delete_edge")
 		return "ok"
-	case len(t) == 3 && (t[0] == "proj" || t[0] == "proj2"):
-		dn, ok1 := parseIDs(t[1])
-		de, ok2 := parseIDs(t[2])
+	case (len(t) == 3 && (t[0] == "proj" || t[0] == "proj2")) || (len(t) == 5 && t[0] == "proj"):
+		name, parent := "proj", "store"
+		if t[0] == "proj2" {
+			parent = "proj"
+		}
+		if len(t) == 5 {
+			name, parent = t[1], t[2]
+			switch name {
+			case "am", "csr", "ts", "store":
+				return "bad-op"
+			}
+		}
+		dn, ok1 := parseIDs(t[len(t)-2])
+		de, ok2 := parseIDs(t[len(t)-1])
 		if !ok1 || !ok2 {
 			return "bad-op"
 		}
-		if t[0] == "proj" {
-			r.proj = r.ts.Projection(cardinality.NewBitmap64With(dn...), cardinality.NewBitmap64With(de...))
-		} else {
-			r.proj = r.proj.Projection(cardinality.NewBitmap64With(dn...), cardinality.NewBitmap64With(de...))
+		argN, argE := cardinality.NewBitmap64With(dn...), cardinality.NewBitmap64With(de...)
+		var derived container.Triplestore
+		if parent == "store" {
+			derived = r.ts.Projection(argN, argE)
+		} else if ph, ok := r.handles[parent]; ok {
+			derived = ph.ts.Projection(argN, argE)
 			r.stats.Inc("branch.proj.nested")
+		} else {
+			return "bad-op"
 		}
+		r.handles[name] = &c14Handle{ts: derived, argN: argN, argE: argE}
+		r.snapOn = true
 		if len(dn) > 0 {
 			r.stats.Inc("branch.proj.deleted_nodes")
 		}
@@ -767,6 +983,13 @@ func (r *c14Runner) Step(t []string, raw string) string {
 			r.stats.Inc("branch.proj.deleted_edges")
 		}
 		return "ok"
+	case len(t) == 2 && t[0] == "snap":
+		h, ok := r.handles[t[1]]
+		if !ok {
+			return "bad-op"
+		}
+		r.stats.Inc("branch.snap")
+		return viewString(h.ts) + ";" + argString(h)
 	case len(t) == 2 && t[0] == "nodes":
 		g := r.view(t[1])
 		if g == nil {
@@ -916,7 +1139,7 @@ func (r *c14Runner) Step(t []string, raw string) string {
 		res := func() (out string) {
 			defer func() {
 				if p := recover(); p != nil {
-					out = "panic"
+					out = "index-panic"
 				}
 			}()
 			sg := container.SerializedSegment{Nodes: ns, Edges: es}.ToSegment()
@@ -924,13 +1147,8 @@ func (r *c14Runner) Step(t []string, raw string) string {
 		}()
 		return res
 	case len(t) == 6 && (t[0] == "tsbfs" || t[0] == "tsdfs"):
-		var ts container.Triplestore
-		switch t[1] {
-		case "ts":
-			ts = r.ts
-		case "proj":
-			ts = r.proj
-		default:
+		ts := r.tsOf(t[1])
+		if ts == nil {
 			return "bad-op"
 		}
 		d, ok := c14Dir(t[2])
@@ -961,13 +1179,8 @@ func (r *c14Runner) Step(t []string, raw string) string {
 		}
 		return fmt.Sprintf("inc=%d %s", inc, out)
 	case len(t) == 6 && t[0] == "tssl":
-		var ts container.Triplestore
-		switch t[1] {
-		case "ts":
-			ts = r.ts
-		case "proj":
-			ts = r.proj
-		default:
+		ts := r.tsOf(t[1])
+		if ts == nil {
 			return "bad-op"
 		}
 		d, ok := c14Dir(t[2])
